@@ -68,6 +68,16 @@ def handle (op : String) (j : Json) : R Json := do
       | some v => return jOk (jExpr v)
       | none => return jErr "RecursionError"
     else return jOk (jExpr (subst r e))
+  | "compose" =>
+    let pR := fun (k : String) => listF (fun x => do
+      let l ← asArr x
+      return (← asStr (l.getD 0 Json.null), ← pExpr (l.getD 1 Json.null))) j k
+    let r1 ← pR "r1"
+    let r2 ← pR "r2"
+    let c := compose r1 r2
+    -- the composed resolver as a function: distinct keys in order of first occurrence with the value `lookup` returns
+    let ks := (c.map (·.1)).eraseDups
+    return jList (fun k => Json.arr #[jStr k, match lookup c k with | some e => jExpr e | none => Json.null]) ks
   | _ => throw s!"unknown op {op}"
 
 end Driver.C10
